@@ -142,6 +142,11 @@ func Solve(query string, timeoutSec int, seed int, agree bool) SolveResult {
 				cancel()
 				break
 			}
+			// agreement mode: the other solvers get a short grace period to contradict
+			go func() {
+				time.Sleep(8 * time.Second)
+				cancel()
+			}()
 		}
 	}
 	if res.Winner == "" {
